@@ -373,3 +373,126 @@ def huge_header(text, limit=20000):
                 except ValueError:
                     pass
     return False
+
+
+# ------------------------------------------------------------------------------------------------ STV lexing
+def stv_initials(name):
+    return ''.join(part[0].lower() for part in re.split(r'\W', name) if part)
+
+
+def stv_hline(line):
+    if '#' in line:
+        line = line[:line.find('#')]
+    line = line.strip()
+    if not line:
+        return None
+    if '=' not in line:
+        return 'invalid'
+    key, value = line.split('=', 1)
+    if key == 'ballots':
+        if value == 'blt':
+            return 'ballotsBlt'
+        if value.isdigit():
+            try:
+                return {'ballots': int(value)}
+            except ValueError:
+                return 'UNSUPPORTED'
+        return 'ballotsBad'
+    if key == 'order':
+        return {'order': value.split()}
+    if key in ('candidate', 'withdrawn'):
+        parts = value.split(None, 1)
+        if len(parts) == 2:
+            return {'cand': [key == 'withdrawn', parts[0], parts[1]]}
+        return 'candBad'
+    return {'other': [key, value]}
+
+
+def stv_vline(line):
+    s = line.strip()
+    if s == 'end':
+        return 'end'
+    if not s:
+        return None
+    items = s.split()
+    f = items[0]
+    if f.endswith('X'):
+        m = f[:-1]
+        try:
+            if '/' in m:
+                first = {'mult': fstr(Fraction(m))}
+            elif '.' in m:
+                d = Decimal(m)
+                if not d.is_finite():
+                    return 'UNSUPPORTED'
+                first = {'mult': fstr(d)}
+            elif m.isdigit():
+                first = {'mult': str(int(m))}
+            else:
+                first = 'multBad'
+        except ZeroDivisionError:
+            first = 'multZero'
+        except ValueError:
+            first = 'multBad'
+        except InvalidOperation:
+            return 'UNSUPPORTED'          # the real reader lets decimal.InvalidOperation through here
+    else:
+        first = {'word': f}
+    return {'first': first, 'rest': items[1:]}
+
+
+def stv_tokenise(text):
+    """-> (header views up to and including the first ballots= line, ballot views of the rest) or None"""
+    lines = text.split('\n')
+    hdr, k = [], len(lines)
+    for i, l in enumerate(lines):
+        h = stv_hline(l)
+        if h == 'UNSUPPORTED':
+            return None
+        hdr.append(h)
+        if h in ('ballotsBlt', 'ballotsBad') or (isinstance(h, dict) and 'ballots' in h):
+            k = i + 1
+            break
+        if h in ('invalid', 'candBad'):
+            k = i + 1                      # the reader stops here with an exception; the rest is never looked at
+            return hdr, []
+    votes = [stv_vline(l) for l in lines[k:]]
+    if any(v == 'UNSUPPORTED' for v in votes):
+        return None
+    return hdr, votes
+
+
+def stv_system_ok(hdr):
+    """the system settings are a set `_create_system` accepts (the model does not cover that function)"""
+    seen = {}
+    for h in hdr:
+        if isinstance(h, dict) and 'other' in h:
+            k, v = h['other']
+            if k in seen:
+                return False
+            seen[k] = v
+    if set(seen) - {'title', 'method', 'quota', 'seats', 'random'}:
+        return False
+    if seen.get('method') != 'BC' or seen.get('quota') not in ('droop', 'hare'):
+        return False
+    if 'seats' in seen and not re.fullmatch(r'[0-9]+', seen['seats']):
+        return False
+    if 'random' in seen and not (seen['random'] == 'non' or re.fullmatch(r'[0-9]+', seen['random'])):
+        return False
+    return True
+
+
+def stv_weight_model(w):
+    x = weight_py(w)
+    s = str(x)
+    ok = True
+    try:
+        if '/' in s:
+            Fraction(s)
+        elif '.' in s:
+            Decimal(s)
+        elif not s.isdigit():
+            ok = False
+    except Exception:
+        ok = False
+    return {'v': fstr(x), 'spellable': ok}
